@@ -25,7 +25,7 @@ import os
 from harness.common.framework import Prop, VERIF
 from translate import t_c15
 
-ERRS = ('StopIteration', 'ValueError', 'TypeError', 'AssertionError', 'KeyError')
+ERRS = ('StopIteration', 'ValueError', 'TypeError', 'AssertionError', 'KeyError', 'RuntimeError')
 
 
 # ------------------------------------------------------------------------------------------
@@ -211,7 +211,7 @@ def try_propose(world, algo):
     return algo.propose(), None
   except StopIteration:
     return None, 'StopIteration'
-  except (ValueError, TypeError, AssertionError, KeyError) as e:
+  except (ValueError, TypeError, AssertionError, KeyError, RuntimeError) as e:
     return None, type(e).__name__
 
 
@@ -241,7 +241,7 @@ def run_live(world, cfg, events):
           algo.feedback(dna, reward)
           hist[i][1] = reward
           log.append('f')
-        except (ValueError, TypeError, AssertionError, KeyError) as ex:
+        except (ValueError, TypeError, AssertionError, KeyError, RuntimeError) as ex:
           log.append(type(ex).__name__)
       else:
         log.append('skip')
@@ -305,7 +305,7 @@ def recover_fresh(world, cfg, hist):
   algo = setup(world, cfg)
   try:
     algo.recover(persist(world, hist))
-  except (ValueError, TypeError, AssertionError, KeyError) as e:
+  except (ValueError, TypeError, AssertionError, KeyError, RuntimeError) as e:
     return None, type(e).__name__
   return algo, None
 
@@ -507,7 +507,14 @@ class C15(Prop):
       'every crash point + translate/t_c15.py for the structural variant of recover/_replay)',
   ]
   assumptions = ['the client feeds a proposal back at most once, with the DNA object it was handed',
-                 'operations passed to Evolution are pure functions of (population, num_generations, step)']
+                 'operations passed to Evolution are pure functions of (population, num_generations, step)',
+                 'generator scope: nested Deduping wrappers use one hash function (they share the metadata key '
+                 "'dedup_key'); Evolution initial size >= 1 (or none: until the initialiser is exhausted)",
+                 'oracle scope: continuation is demanded only after prefixes in which no propose() raised; the '
+                 'proposal counter of a generator wrapped by Deduping is compared only when no duplicate was '
+                 'dropped (dropped proposals leave no trace in the history); the private cache of an inner '
+                 'Deduping of a nested wrapper is not compared; the de-duplication memory is compared per key as '
+                 'a multiset of rewards (feedback-driven) or as a count (generators that take no feedback)']
 
 
   # -- generation ---------------------------------------------------------------------------
